@@ -5,38 +5,7 @@
    operator Op(q, ctr, args) returning the record [q, ctr, ret]; the design model
    (Next) and the trace spec (TraceTaskQueue) both use these operators, so the
    same text decides the design and every recorded execution of the code.     *)
-EXTENDS Naturals, Integers, Sequences, FiniteSets, TLC
-
-Less(a, b) == a.p < b.p \/ (a.p = b.p /\ a.s < b.s)
-
-Sorted(q) == \A i \in 1..Len(q)-1 : Less(q[i], q[i+1])
-UniqueTasks(q) == \A i, j \in 1..Len(q) : i # j => q[i].t # q[j].t
-StampsBelow(q, ctr) == \A i \in 1..Len(q) : q[i].s < ctr
-
-Has(q, t) == \E i \in 1..Len(q) : q[i].t = t
-Without(q, t) == SelectSeq(q, LAMBDA e : e.t # t)
-Insert(q, e) ==
-    LET k == Cardinality({i \in 1..Len(q) : Less(q[i], e)})
-    IN SubSeq(q, 1, k) \o <<e>> \o SubSeq(q, k+1, Len(q))
-
-Pairs(q) == [i \in 1..Len(q) |-> <<q[i].p, q[i].t>>]
-R(kind, v) == [k |-> kind, v |-> v]
-
-OpAdd(q, ctr, p, t) ==
-    [q |-> Insert(Without(q, t), [p |-> p, s |-> ctr, t |-> t]), ctr |-> ctr + 1, ret |-> R("none", <<>>)]
-OpRemove(q, ctr, t) == [q |-> Without(q, t), ctr |-> ctr, ret |-> R("none", <<>>)]
-OpPop(q, ctr) ==
-    IF q = <<>> THEN [q |-> q, ctr |-> ctr, ret |-> R("keyerror", <<>>)]
-    ELSE [q |-> Tail(q), ctr |-> ctr, ret |-> R("pair", <<<<q[1].p, q[1].t>>>>)]
-OpPeekS(q, ctr) ==
-    IF q = <<>> THEN [q |-> q, ctr |-> ctr, ret |-> R("keyerror", <<>>)]
-    ELSE [q |-> q, ctr |-> ctr, ret |-> R("pair", <<<<q[1].p, q[1].t>>>>)]
-OpPeekL(q, ctr) ==
-    IF q = <<>> THEN [q |-> q, ctr |-> ctr, ret |-> R("keyerror", <<>>)]
-    ELSE [q |-> q, ctr |-> ctr, ret |-> R("pair", <<<<q[Len(q)].p, q[Len(q)].t>>>>)]
-OpEmpty(q, ctr) == [q |-> q, ctr |-> ctr, ret |-> R(IF q = <<>> THEN "true" ELSE "false", <<>>)]
-OpClear(q, ctr) == [q |-> <<>>, ctr |-> 0, ret |-> R("none", <<>>)]
-OpIter(q, ctr) == [q |-> q, ctr |-> ctr, ret |-> R("list", Pairs(q))]
+EXTENDS Naturals, Integers, Sequences, FiniteSets, TLC, QueueOps
 
 Apply(q, ctr, op) ==
     CASE op.n = "add"    -> OpAdd(q, ctr, op.p, op.t)
